@@ -51,8 +51,6 @@ pub uninterp spec fn deflate(s: Seq<u8>) -> Seq<u8>;
 pub fn zlib_compress(input: &[u8]) -> (r: Result<Vec<u8>>)
     ensures r is Ok ==> r->Ok_0@ == deflate(input@) && r->Ok_0@.len() <= isize::MAX   // a Vec<u8> never holds more than isize::MAX bytes
 { unimplemented!() }
-// what Stream::decompressed_content returns (its body is not under contract in this unit)
-pub uninterp spec fn decoded_content(s: Stream) -> Option<Seq<u8>>;
 
 // R5/R10 shims
 #[verifier::external_body]
@@ -112,11 +110,95 @@ pub open spec fn pred_geometry(p: SDict) -> (int, int) {
     ((if colors >= 1 { colors as int } else { 1 }) * (if bits >= 8 { bits as int } else { 8 }) / 8, if cols >= 1 { cols as int } else { 1 })
 }
 
-// assumed contract of Stream::decompressed_content (body not under contract here): it computes decoded_content
+pub assume_specification<T: Clone> [<[T]>::to_vec] (s: &[T]) -> (r: Vec<T>) ensures r@ == s@;   // used at T = u8 only
+
+// =====================================================================================
+// ISO 32000-1 7.4: what a stream's data decodes to (the oracle of Stream::decompressed_content)
+// =====================================================================================
+pub open spec fn K_LZW() -> Seq<u8> { seq![0x4cu8, 0x5au8, 0x57u8, 0x44u8, 0x65u8, 0x63u8, 0x6fu8, 0x64u8, 0x65u8] }
+pub open spec fn K_A85() -> Seq<u8> { seq![0x41u8, 0x53u8, 0x43u8, 0x49u8, 0x49u8, 0x38u8, 0x35u8, 0x44u8, 0x65u8, 0x63u8, 0x6fu8, 0x64u8, 0x65u8] }
+pub open spec fn K_EARLYCHANGE() -> Seq<u8> { seq![0x45u8, 0x61u8, 0x72u8, 0x6cu8, 0x79u8, 0x43u8, 0x68u8, 0x61u8, 0x6eu8, 0x67u8, 0x65u8] }
+// external codecs (ASSUMED: flate2 inflates, weezl decodes LZW; what they return on damaged data is whatever they return)
+pub uninterp spec fn inflate(s: Seq<u8>) -> Seq<u8>;
+pub uninterp spec fn lzw(s: Seq<u8>, early_change: bool) -> Seq<u8>;
+#[verifier::external_body]
+pub fn zlib_read_to_end(input: &[u8], output: &mut Vec<u8>)
+    requires old(output)@.len() == 0
+    ensures final(output)@ == inflate(input@), final(output)@.len() <= isize::MAX
+{ unimplemented!() }
+#[verifier::external_body]
+pub fn lzw_decode_all(input: &[u8], early_change: bool) -> (r: Vec<u8>) ensures r@ == lzw(input@, early_change), r@.len() <= isize::MAX { unimplemented!() }
+#[verifier::external_body]
+pub fn cap_hint2(a: usize) -> (r: usize) { a.wrapping_mul(2) }
+pub open spec fn inflate_or_empty(s: Seq<u8>) -> Seq<u8> { if s.len() == 0 { Seq::<u8>::empty() } else { inflate(s) } }
+
+/// the PNG / TIFF predictor step after a Flate or LZW filter (the contract proved for decompress_predictor)
+pub open spec fn predicted(data: Seq<u8>, parms: Option<SDict>) -> Option<Seq<u8>> {
+    match parms {
+        None => Some(data),
+        Some(p) => {
+            let predictor = sdict_i64_or(p, K_PREDICTOR(), 1);
+            if 10 <= predictor <= 15 {
+                let (bpp, cols) = pred_geometry(p);
+                if bpp * 8 + 7 > usize::MAX || bpp * cols > usize::MAX { None } else { frame(data, bpp, bpp * cols, 0, zeros8(bpp * cols)) }
+            } else { Some(data) }
+        },
+    }
+}
+/// DecodeParms for filter number `index`: the dictionary itself, or entry `index` of an array parallel to the filters
+pub open spec fn parms_at(dp: Option<SObj>, index: int) -> Option<SDict> {
+    match dp {
+        Some(SObj::Array(items)) => if 0 <= index < items.len() { match items[index] { SObj::Dictionary(d) => Some(d), _ => None } } else { None },
+        Some(SObj::Dictionary(d)) => Some(d),
+        _ => None,
+    }
+}
+pub open spec fn apply_filter(name: Seq<u8>, input: Seq<u8>, parms: Option<SDict>) -> Option<Seq<u8>> {
+    if name == K_FLATE() { predicted(inflate_or_empty(input), parms) }
+    else if name == K_LZW() { predicted(lzw(input, (match parms { Some(p) => sdict_i64_or(p, K_EARLYCHANGE(), 1), None => 1 }) != 0), parms) }
+    else if name == K_A85() { a85_decode(input) }
+    else { None }
+}
+/// filters i.. applied in order to `input`
+pub open spec fn decode_chain(names: Seq<Seq<u8>>, dp: Option<SObj>, i: int, input: Seq<u8>) -> Option<Seq<u8>> decreases names.len() - i {
+    if i < 0 || i >= names.len() { Some(input) } else {
+        match apply_filter(names[i], input, parms_at(dp, i)) { Some(out) => decode_chain(names, dp, i + 1, out), None => None }
+    }
+}
+/// the Filter entry: one name, or an array of names
+pub open spec fn filter_names(d: SDict) -> Option<Seq<Seq<u8>>> {
+    match sdict_get(d, K_FILTER()) {
+        Some(SObj::Name(n)) => Some(seq![n]),
+        Some(SObj::Array(items)) => if forall|i: int| 0 <= i < items.len() ==> (#[trigger] items[i]) is Name { Some(Seq::new(items.len(), |i: int| items[i]->Name_0)) } else { None },
+        _ => None,
+    }
+}
+pub open spec fn decoded_content(s: Stream) -> Option<Seq<u8>> {
+    match filter_names(abs_dict(s.dict)) {
+        None => None,
+        Some(names) => if names.len() == 0 { Some(s.content@) } else { decode_chain(names, sdict_get(abs_dict(s.dict), K_DECODEPARMS()), 0, s.content@) },
+    }
+}
 impl Stream {
+    /// ASSUMED contract of Stream::filters (its body is `names.iter().map(Object::as_name).collect()`, iterator code)
     #[verifier::external_body]
-    pub fn decompressed_content(&self) -> (r: Result<Vec<u8>>)
-        ensures match decoded_content(*self) { Some(d) => r is Ok && r->Ok_0@ == d, None => r is Err }
+    pub fn filters(&self) -> (r: Result<Vec<&[u8]>>)
+        ensures match filter_names(abs_dict(self.dict)) {
+            Some(names) => r is Ok && r->Ok_0@.len() == names.len() && forall|i: int| 0 <= i < names.len() ==> (#[trigger] r->Ok_0@[i])@ == names[i],
+            None => r is Err },
     { unimplemented!() }
 }
-pub assume_specification<T: Clone> [<[T]>::to_vec] (s: &[T]) -> (r: Vec<T>) ensures r@ == s@;   // used at T = u8 only
+#[verifier::external_body]
+pub fn result_ok<'a>(r: core::result::Result<&'a Object, IoError>) -> (o: Option<&'a Object>)
+    ensures match r { Ok(v) => o == Some(v), Err(_) => o is None }
+{ r.ok() }
+pub fn as_dict_opt(o: &Object) -> (r: Option<&Dictionary>)
+    ensures match *o { Object::Dictionary(d) => r is Some && *r->Some_0 == d, _ => r is None }
+{ match o { Object::Dictionary(d) => Some(d), _ => None } }
+#[verifier::external_body]
+pub fn bytes_are(a: &[u8], b: &[u8]) -> (r: bool) ensures r == (a@ == b@) { a == b }
+#[verifier::external_body]
+pub fn clone_vec(v: &Vec<u8>) -> (r: Vec<u8>) ensures r@ == v@ { v.clone() }
+pub fn opt_dict_i64_or(p: Option<&Dictionary>, k: &[u8], dflt: i64) -> (r: i64)
+    ensures r == (match p { Some(d) => sdict_i64_or(abs_dict(*d), k@, dflt), None => dflt })
+{ match p { Some(d) => dict_get_i64_or(d, k, dflt), None => dflt } }
